@@ -518,10 +518,9 @@ pub async fn try_exists<P: AsRef<Path>>(path: P) -> io::Result<bool> {
 }
 
 pub fn exists_sync(path: &Path) -> bool {
-    match path.to_str() {
-        Some(s) => fs().exists(s),
-        None => false,
-    }
+    // (no `to_str()`: std's UTF-8 validation is a loop over the path length)
+    let s = unsafe { core::str::from_utf8_unchecked(path.as_os_str().as_encoded_bytes()) };
+    fs().exists(s)
 }
 
 pub async fn create_dir_all<P: AsRef<Path>>(path: P) -> io::Result<()> {
